@@ -138,3 +138,32 @@ pub async fn run() -> Result<ExitCode> {
 		exit
 	})
 }
+
+/// Verification seam: in-process access to the CLI's argument normalisation, filterer
+/// construction and action handler.
+#[cfg(watchexec_verif)]
+#[allow(missing_docs, unreachable_pub)]
+pub mod verif {
+	use clap::Parser;
+
+	use crate::args::Args;
+	pub use crate::{
+		config::{interpret_command_args_verif as interpret_command_args, make_config},
+		dirs::{ignores, project_origin, vcs_types},
+		emits::{emits_to_environment, events_to_simple_format},
+		filterer::WatchexecFilterer,
+		state::{new as new_state, State},
+	};
+
+	/// Parse an argv vector and normalise it exactly as `get_args` does (minus logging setup
+	/// and @argfile expansion).
+	pub async fn args_from(argv: Vec<std::ffi::OsString>) -> miette::Result<Args> {
+		let mut args = Args::try_parse_from(argv).map_err(|e| miette::miette!("{e}"))?;
+		args.output.normalise()?;
+		args.command.normalise().await?;
+		args.filtering.normalise(&args.command).await?;
+		args.events
+			.normalise(&args.command, &args.filtering, args.only_emit_events)?;
+		Ok(args)
+	}
+}
